@@ -157,6 +157,20 @@ type HookRT struct {
 	Log  []Exchange
 	// RespHook may alter a response on its way to the client.
 	RespHook func(msgType int, resp *http.Response, body []byte) []byte
+	// Chunked: requests reach the handler without a Content-Length (ContentLength -1, Transfer-Encoding chunked).
+	Chunked bool
+	// cancelCur cancels the context of the request being served (see CancelCurrent): a client that hangs up.
+	cancelCur context.CancelFunc
+}
+
+// CancelCurrent cancels the context of the request that is being served right now, if any.
+func (rt *HookRT) CancelCurrent() {
+	rt.mu.Lock()
+	c := rt.cancelCur
+	rt.mu.Unlock()
+	if c != nil {
+		c()
+	}
 }
 
 func (rt *HookRT) add(e Exchange) {
@@ -175,9 +189,24 @@ func (rt *HookRT) Reset() {
 func (rt *HookRT) Do(msgType int, body []byte, hdr http.Header) *http.Response {
 	req := httptest.NewRequest(http.MethodPost, "/fdo/101/msg/"+strconv.Itoa(msgType), bytes.NewReader(body))
 	req.ContentLength = int64(len(body))
+	if rt.Chunked {
+		req.ContentLength = -1
+		req.TransferEncoding = []string{"chunked"}
+	}
 	for k, v := range hdr {
 		req.Header[k] = v
 	}
+	rctx, rcancel := context.WithCancel(req.Context())
+	defer rcancel()
+	req = req.WithContext(rctx)
+	rt.mu.Lock()
+	rt.cancelCur = rcancel
+	rt.mu.Unlock()
+	defer func() {
+		rt.mu.Lock()
+		rt.cancelCur = nil
+		rt.mu.Unlock()
+	}()
 	var buf bytes.Buffer
 	rr := &httptest.ResponseRecorder{Body: &buf}
 	ex := Exchange{MsgType: msgType, ReqLen: len(body)}
@@ -240,12 +269,18 @@ type Effect struct {
 type Journal struct {
 	mu sync.Mutex
 	E  []Effect
+	// OnAdd (optional) runs right after an effect was recorded, i.e. inside the request that caused it.
+	OnAdd func(kind string)
 }
 
 func (j *Journal) Add(kind, guid, info string) {
 	j.mu.Lock()
 	j.E = append(j.E, Effect{kind, guid, info})
+	f := j.OnAdd
 	j.mu.Unlock()
+	if f != nil {
+		f(kind)
+	}
 }
 func (j *Journal) Len() int { j.mu.Lock(); defer j.mu.Unlock(); return len(j.E) }
 func (j *Journal) Since(n int) []Effect {
